@@ -294,43 +294,85 @@ def r5(ctx):
     ctx.require(ins is not None, "FileTree.insert missing")
     fnp, smp = ins.params[1], ins.params[2]
     # the propagation statement and its guard
-    augs = [n for n in walk_no_nested(ins.node) if isinstance(n, ast.AugAssign) and "setmap" in u(n.target)]
-    ctx.require(len(augs) == 1, "FileTree.insert: propagation `parent.setmap[ps] += setmap[ps]` not found")
-    aug = augs[0]
-    ok = u(aug.target) == "parent.setmap[ps]" and u(aug.value) == f"{smp}[ps]" and isinstance(aug.op, ast.Add)
-    ctx.soft(ok, "report:FileTree.insert:propagation", f"`{u(aug)}` must add the file's own setmap entry to the ancestor's", ins.loc(aug))
-    # enclosing loops / guards
-    enc_for = [n for n in walk_no_nested(ins.node) if isinstance(n, ast.For) and any(x is aug for x in ast.walk(n))]
-    ps_loop = [n for n in enc_for if u(n.target) == "ps"]
-    ok = len(ps_loop) == 1 and u(ps_loop[0].iter) in (f"{smp}.keys()", smp)
-    ctx.soft(ok, "report:FileTree.insert:all-platform-sets", "every platform set of the file must be propagated", ins.loc(aug))
-    guards = [n for n in walk_no_nested(ins.node) if isinstance(n, ast.If) and any(x is aug for x in ast.walk(n))]
-    sym = [g for g in guards if "is_symlink" in u(g.test)]
-    key = "report:FileTree.insert:symlink-guard"
-    if len(sym) != 1:
-        ctx.violation(key, "propagation is not guarded by a symlink test: a link and its target would both be added to every directory", ins.loc(aug))
-    else:
-        t = sym[0].test
-        ok = isinstance(t, ast.UnaryOp) and isinstance(t.op, ast.Not) and isinstance(t.operand, ast.Call) and isinstance(t.operand.func, ast.Attribute)
-        if ok:
-            recv = t.operand.func.value
-            leaves = provenance(ins, recv, sym[0])
-            txt = {u(l) for l, c in leaves}
-            chains = [c for _, c in leaves]
-            ok = txt == {fnp} and all("<iter>" not in c for c in chains)
-        ctx.check(ok, key, f"`{u(t)}` must test whether the INSERTED FILE is a symlink (not the directory component being visited): a link below a sub-directory would be counted in some ancestors and not in others", ins.loc(sym[0]))
-    # the walk covers every ancestor below the root and the file itself, in order
-    comp = [n for n in enc_for if n not in ps_loop]
-    ok = len(comp) == 1 and u(comp[0].iter) == "list(reversed(filepath.parents)) + [filepath]"
-    ctx.soft(ok, "report:FileTree.insert:ancestors", "must walk every ancestor from the root down to the file", ins.loc())
-    if ok:
-        first = comp[0].body[0]
-        ok2 = isinstance(first, ast.If) and u(first.test) == "path == rootpath or not path.is_relative_to(rootpath)" and isinstance(first.body[0], ast.Continue)
-        ctx.soft(ok2, "report:FileTree.insert:skip-above-root", "only components above (or equal to) the root may be skipped", ins.loc(first))
-        # propagation happens before descending (parent is the ancestor of `path`)
-        idx_aug = next(i for i, s in enumerate(comp[0].body) if any(x is aug for x in ast.walk(s)))
-        idx_desc = next((i for i, s in enumerate(comp[0].body) if isinstance(s, ast.Assign) and u(s) == "parent = node"), None)
-        ctx.soft(idx_desc is not None and idx_aug < idx_desc, "report:FileTree.insert:propagate-then-descend", "the ancestor must receive the counts before the walk descends", ins.loc())
+    # table specification of the walk (decision table for up to two ancestors + the file itself):
+    #   a component is skipped iff it is the root or not below the root; every other component's PARENT receives, once,
+    #   every (platform set, count) of the file's own setmap - unless the inserted file is a symlink - and only then
+    #   does the walk descend; the first receiver is the root node
+    from ..spec import atoms as _atoms, tab as _tab, vt as _vt
+
+    FN = f"Path({fnp})"
+    n_walk = 0
+    for p in _tab(ins, unroll=2):
+        at = _atoms(p, drop_more=False)
+        its = sorted({(m.group(1), int(m.group(2))) for k, v in at.items() for m in [re.match(r"more\((.+)#L\d+,(\d+)\)$", k)] if m and v and "parents" in m.group(1)})
+        iters = {i for i, _ in its}
+        if len(iters) > 1:
+            raise AnalysisError(f"FileTree.insert: ancestors come from several collections: {sorted(iters)}")
+        ITER = next(iter(iters), None)
+        if ITER is not None and ITER not in (f"list(reversed({FN}.parents))", f"reversed({FN}.parents)", f"{FN}.parents[::-1]", f"list({FN}.parents)[::-1]"):
+            ctx.violation("report:FileTree.insert:ancestors", f"the walk must visit every ancestor directory from the top down to the file (`reversed({FN}.parents)` then the file): visits `{ITER[:80]}`", ins.loc())
+            continue
+        comps = [f"{ITER}[{i}]" for _, i in its] + [FN]
+        ROOT = "self.root.path"
+        active = []
+        bad_skip = None
+        for c in comps:
+            eq = next((v for k, v in at.items() if k in (f"{c} Eq {ROOT}", f"{ROOT} Eq {c}")), None)
+            rel = at.get(f"{c}.is_relative_to({ROOT})")
+            others = [k for k in at if ROOT in k and not k.startswith("more(") and k not in (f"{c} Eq {ROOT}", f"{ROOT} Eq {c}", f"{c}.is_relative_to({ROOT})")
+                      and (k.startswith(c + " ") or k.startswith(c + ".") or k.endswith(" " + c) or k.endswith(f"({c})"))]
+            if others or (eq is None and rel is None):
+                bad_skip = (c, others)
+                break
+            if eq is True or rel is False:
+                continue
+            if eq is None or rel is None:
+                bad_skip = (c, ["only one of (is the root, is below the root) is examined"])
+                break
+            active.append(c)
+        if bad_skip:
+            ctx.violation("report:FileTree.insert:skip-above-root", f"a component is skipped exactly when it is the root or not below the root; for `{bad_skip[0][-50:]}` the walk examines {bad_skip[1][:2]}", ins.loc())
+            continue
+        n_walk += 1
+        sym = at.get(f"{FN}.is_symlink()")
+        if sym is None:
+            sym = next((v for k, v in at.items() if k in (f"os.path.islink({fnp})", f"{FN}.resolve() NotEq {FN}")), None)
+        groups = []
+        for e in p.effects:
+            if e[0] != "aug" or ".setmap[" not in _vt(e[1]):
+                continue
+            m = re.fullmatch(r"(.+)\.setmap\[(.+)\]", _vt(e[1]))
+            if not m:
+                continue
+            if not groups or groups[-1][0] != m.group(1):
+                groups.append((m.group(1), []))
+            groups[-1][1].append((m.group(2), e[2], _vt(e[3])))
+        if sym is True:
+            ctx.check(not groups, "report:FileTree.insert:symlink-guard", "the counts of a symbolic link are added to its ancestors (the link's target is counted where it really is)", ins.loc())
+            continue
+        if not active:
+            ctx.check(not groups, "report:FileTree.insert:skip-above-root", "counts are added although every component is above the root", ins.loc())
+            continue
+        sym_other = [k for k in at if ("is_symlink" in k or "islink" in k) and k not in (f"{FN}.is_symlink()", f"os.path.islink({fnp})")]
+        if sym_other:
+            ctx.violation("report:FileTree.insert:symlink-guard", f"`{sym_other[0][:80]}` must test whether the INSERTED FILE is a symlink (not the directory component being visited): a link below a sub-directory would be counted in some ancestors and not in others", ins.loc())
+            continue
+        if sym is None:
+            ctx.check(not groups, "report:FileTree.insert:symlink-guard", "propagation is not guarded by a symlink test: a link and its target would both be added to every directory", ins.loc())
+            continue
+        firsts = [v for k, v in at.items() if re.match(r"more\(" + re.escape(smp) + r"[^#]*#L\d+,0\)$", k)]
+        if not firsts or not all(firsts) or len(firsts) != len(active):
+            continue  # an empty setmap - or the same setmap empty for one ancestor and not for the next: not a case
+        ctx.check(len(groups) == len(active), "report:FileTree.insert:ancestors", f"{len(active)} component(s) below the root are visited but {len(groups)} node(s) receive the file's counts: every ancestor directory (and the root) must receive them exactly once", ins.loc())
+        if groups:
+            ctx.check(groups[0][0] == "self.root", "report:FileTree.insert:propagate-then-descend", f"the first receiver of the counts is `{groups[0][0][:60]}`, not the root node: the counts must be added to the parent BEFORE the walk descends (otherwise the root never receives anything and the file's own node is counted twice)", ins.loc())
+        for base, items in groups:
+            for K, op, V in items:
+                mk = re.fullmatch(re.escape(smp) + r"\.items\(\)\[(\d+)\]\[0\]", K)
+                okv = op == "Add" and mk is not None and V in (f"{smp}.items()[{mk.group(1)}][1]", f"{smp}[{K}]")
+                ctx.check(okv, "report:FileTree.insert:propagation", f"`{base[-30:]}.setmap[{K[-40:]}] {op} {V[-50:]}`: each ancestor must ADD the file's own count for every platform set of the file's setmap", ins.loc())
+    if n_walk < 6:
+        raise AnalysisError(f"FileTree.insert: only {n_walk} walks understood")
     # files(): prune
     fl = repo.func("report", "files")
     loop, cbn = _outer_loop(repo, fl)
